@@ -167,6 +167,9 @@ func (x *Exec) callStatic(fn *ssa.Function, args []Val, bindings []Val) Val {
 		c = x.eng.contractOf[fn.Origin()] // instantiation of a generic function under contract
 	}
 	if c != nil && !c.Attrs["inline"] {
+		// a function literal under contract: its free variables are visible in the contract by name (as pointers)
+		x.closureBindings = bindings
+		defer func() { x.closureBindings = nil }()
 		return x.applyContract(c, fn, fn.Signature, args, nil, "call-pre", fn.Name())
 	}
 	if x.eng.inlinable(fn) {
@@ -262,6 +265,13 @@ func (x *Exec) contractEnv(c *Contract, fn *ssa.Function, sig *types.Signature, 
 	}
 	for i, n := range names {
 		env.vars[n] = args[i]
+	}
+	if fn != nil && len(fn.FreeVars) > 0 && len(x.closureBindings) == len(fn.FreeVars) {
+		for i, fv := range fn.FreeVars {
+			if _, taken := env.vars[fv.Name()]; !taken {
+				env.vars[fv.Name()] = x.closureBindings[i]
+			}
+		}
 	}
 	if self != nil {
 		env.vars["self"] = &FuncV{Id: self}
